@@ -862,6 +862,7 @@ pub fn c07(tier: &str, seed: u64) -> Check {
         spaces.push(c07_space5(&AM1P2, 7));
     }
     spaces.push(crate::props::fam::c07_c08_family("bfm", thorough));
+    spaces.push(crate::props::large::c07_c08_big("bfm", thorough));
     let report = super::report(
         "C07",
         tier,
@@ -1015,6 +1016,7 @@ pub fn c08(tier: &str, seed: u64) -> Check {
         spaces.push(c08_space(4, &AM4));
     }
     spaces.push(crate::props::fam::c07_c08_family("fw", thorough));
+    spaces.push(crate::props::large::c07_c08_big("fw", thorough));
     let report = super::report(
         "C08",
         tier,
